@@ -176,6 +176,17 @@ func (ex *Exec) constrainStr(st *State, s *Term, maxLen int64, lo, hi uint64) {
 	st.addPC(&Term{Sort: BoolSort, S: fmt.Sprintf("(str.in_re %s (re.* (re.range \"\\u{%x}\" \"\\u{%x}\")))", s.S, lo, hi), size: 3})
 }
 
+// nameTerm binds a large term to a fresh solver constant (terms are plain strings without sharing: naming
+// keeps the if-then-else chains of the string stubs linear in size).
+func (ex *Exec) nameTerm(st *State, t *Term, hint string) *Term {
+	if t.Const || t.size < 12 {
+		return t
+	}
+	v := ex.fresh(t.Sort, hint)
+	st.addPC(Eq(v, t))
+	return v
+}
+
 // freshStr: an unconstrained symbolic string (canonical in the bounded representation).
 func (ex *Exec) freshStr(st *State, hint string) *Term {
 	s := ex.fresh(StrSort, hint)
@@ -293,6 +304,7 @@ func errorValue(kind string) Value {
 	return Iface{T: compileErrorType, V: StrC(kind)}
 }
 
+var errorPtrType = types.NewPointer(types.NewNamed(types.NewTypeName(0, nil, "errors.errorString", nil), types.NewStruct(nil, nil), nil))
 var compileErrorType = types.NewNamed(types.NewTypeName(0, nil, "gomacro.CompileError", nil), types.NewStruct(nil, nil), nil)
 
 func libStubs() map[string]StubFn {
@@ -332,8 +344,14 @@ func libStubs() map[string]StubFn {
 	// fmt: results are opaque strings / errors
 	m["fmt.Sprintf"] = func(c *CallCtx) { c.Return(c.ex.freshStr(c.st, "sprintf")) }
 	m["fmt.Sprint"] = m["fmt.Sprintf"]
-	m["fmt.Errorf"] = func(c *CallCtx) { c.Return(Iface{T: compileErrorType, V: StrC("fmt.Errorf")}) }
-	m["errors.New"] = func(c *CallCtx) { c.Return(Iface{T: compileErrorType, V: c.args[0]}) }
+	// error values are pointers to fresh objects holding the message: two errors are equal only when they are
+	// the same error value (as *errors.errorString behaves)
+	newError := func(c *CallCtx, msg Value) Value {
+		obj := c.ex.alloc(c.st, &StructV{F: []Value{msg}})
+		return Iface{T: errorPtrType, V: Ptr{Obj: obj}}
+	}
+	m["fmt.Errorf"] = func(c *CallCtx) { c.Return(newError(c, c.ex.freshStr(c.st, "errorf"))) }
+	m["errors.New"] = func(c *CallCtx) { c.Return(newError(c, c.args[0])) }
 	m["fmt.Fprintf"] = func(c *CallCtx) { c.Return(Tuple{BVC(64, 0), Iface{}}) }
 	m["fmt.Printf"] = m["fmt.Fprintf"]
 	m["fmt.Println"] = m["fmt.Fprintf"]
@@ -342,7 +360,7 @@ func libStubs() map[string]StubFn {
 	// strings
 	m["strings.HasPrefix"] = func(c *CallCtx) { c.Return(StrPrefixOf(c.args[1].(*Term), c.args[0].(*Term))) }
 	m["strings.Count"] = func(c *CallCtx) {
-		s, sep := c.args[0].(*Term), c.args[1].(*Term)
+		s, sep := c.ex.nameTerm(c.st, c.args[0].(*Term), "s"), c.args[1].(*Term)
 		if s.Const && sep.Const {
 			c.Return(BVC(64, uint64(strings.Count(s.Str, sep.Str))))
 			return
@@ -354,7 +372,7 @@ func libStubs() map[string]StubFn {
 				hit := And(bvCmp("bvult", BVC(64, uint64(i)), StrLen(s)), Eq(StrAt(s, BVC(64, uint64(i))), BVC(8, uint64(sep.Str[0]))))
 				n = bvBin("bvadd", n, Ite(hit, BVC(64, 1), BVC(64, 0)))
 			}
-			c.Return(n)
+			c.Return(c.ex.nameTerm(c.st, n, "count"))
 			return
 		}
 		c.ex.declareUF("strcount", []Sort{StrSort, StrSort}, BVSort(64))
@@ -380,6 +398,14 @@ func libStubs() map[string]StubFn {
 	// error values built by the errors.New / fmt.Errorf stubs: Error() returns the payload
 	m["invoke:error.Error"] = func(c *CallCtx) {
 		i, ok := c.args[0].(Iface)
+		if ok && i.T == errorPtrType {
+			if p, isPtr := i.V.(Ptr); isPtr {
+				if sv, isS := c.st.heap[p.Obj].(*StructV); isS && len(sv.F) == 1 {
+					c.Return(sv.F[0])
+					return
+				}
+			}
+		}
 		if ok && i.T == compileErrorType {
 			if t, ok := i.V.(*Term); ok && t.Sort == StrSort {
 				c.Return(t)
@@ -392,10 +418,43 @@ func libStubs() map[string]StubFn {
 		fn, rv := c.ex.resolveInvoke(i, c.instr.(*ssa.Call).Call.Method)
 		c.ex.invoke(c.st, nil, fn, []Value{rv}, c.retTo, false, c.instr)
 	}
+	// strings.LastIndexByte / IndexByte on bounded strings: exact, as an if-then-else chain over the positions
+	m["strings.LastIndexByte"] = func(c *CallCtx) {
+		s, b := c.ex.nameTerm(c.st, c.args[0].(*Term), "s"), c.ex.nameTerm(c.st, c.args[1].(*Term), "b")
+		if s.Const && b.Const {
+			c.Return(BVC(64, uint64(int64(strings.LastIndexByte(s.Str, byte(b.U))))))
+			return
+		}
+		if bstrL == 0 {
+			unsupported("strings.LastIndexByte on a symbolic SMT-LIB string (use the bounded representation)")
+		}
+		res := BVC(64, ^uint64(0))
+		for i := 0; i < bstrL; i++ {
+			hit := And(bvCmp("bvult", BVC(64, uint64(i)), StrLen(s)), Eq(StrAt(s, BVC(64, uint64(i))), b))
+			res = Ite(hit, BVC(64, uint64(i)), res)
+		}
+		c.Return(c.ex.nameTerm(c.st, res, "lastindex"))
+	}
+	m["strings.IndexByte"] = func(c *CallCtx) {
+		s, b := c.ex.nameTerm(c.st, c.args[0].(*Term), "s"), c.ex.nameTerm(c.st, c.args[1].(*Term), "b")
+		if s.Const && b.Const {
+			c.Return(BVC(64, uint64(int64(strings.IndexByte(s.Str, byte(b.U))))))
+			return
+		}
+		if bstrL == 0 {
+			unsupported("strings.IndexByte on a symbolic SMT-LIB string (use the bounded representation)")
+		}
+		res := BVC(64, ^uint64(0))
+		for i := bstrL - 1; i >= 0; i-- {
+			hit := And(bvCmp("bvult", BVC(64, uint64(i)), StrLen(s)), Eq(StrAt(s, BVC(64, uint64(i))), b))
+			res = Ite(hit, BVC(64, uint64(i)), res)
+		}
+		c.Return(res)
+	}
 	// strings.TrimSpace on bounded strings: exact for byte strings without multi-byte space runes
 	// (U+0085 and U+00A0 need two bytes in UTF-8; lone bytes 0x85/0xa0 are not spaces)
 	m["strings.TrimSpace"] = func(c *CallCtx) {
-		s := c.args[0].(*Term)
+		s := c.ex.nameTerm(c.st, c.args[0].(*Term), "s")
 		if s.Const {
 			c.Return(StrC(strings.TrimSpace(s.Str)))
 			return
@@ -424,7 +483,8 @@ func libStubs() map[string]StubFn {
 		}
 		allSpace := Eq(lo, n)
 		hi := bvBin("bvsub", n, t)
-		c.Return(Ite(allSpace, StrC(""), StrSub(s, lo, hi)))
+		lo, hi = c.ex.nameTerm(c.st, lo, "lo"), c.ex.nameTerm(c.st, hi, "hi")
+		c.Return(c.ex.nameTerm(c.st, Ite(allSpace, StrC(""), StrSub(s, lo, hi)), "trimmed"))
 	}
 	m["math.Float64bits"] = func(c *CallCtx) { c.Return(FPToBits(c.args[0].(*Term))) }
 	m["math.Float32bits"] = func(c *CallCtx) { c.Return(FPToBits(c.args[0].(*Term))) }
